@@ -328,5 +328,32 @@ def r19_5(ctx):
          if bad is not None else ctx.ok(construct, g.loc(walks[0]) if walks else g.loc()))
 
 
+def r19_6(ctx):
+    """R19.6 rename files found while walking the `--includes` directories are global scope wherever they lie: the arm that
+    adds an `sdkconfig.rename` to the global set is reached for every such file - it is not behind the test that excludes
+    submodule directories from the *files to check*."""
+    repo = ctx.repo
+    p = repo.func(f"{MOD}:_prepare_deprecated_options")
+    ctx.analysed(p.qual)
+    fl = Flow(p.node, resolver=Resolver(p.node)).run()
+    adds = [n for n in ast.walk(p.node) if isinstance(n, ast.Call) and ast.unparse(n.func) == "global_deprecated.update"]
+    in_walk = [n for n in adds if any(isinstance(a, ast.For) and "os.walk(" in ast.unparse(a.iter) for a in _anc(repo, n, p.node))]
+    if not in_walk:
+        raise AnchorError("_prepare_deprecated_options: rename files of the walked include directories are no longer collected")
+    for i, n in enumerate(in_walk):
+        construct = f"_prepare_deprecated_options/rename file #{i + 1} found under --includes is collected whatever directory it is in"
+        gs = fl.guards_at(n) or set()
+        blocked = sorted(k for k, pol in gs if "ignore_dirs" in k and pol is False and " and " not in k and " or " not in k)
+        (ctx.bad(construct, f"the rename file is only collected when {blocked} is false: old names defined in an excluded submodule are not flagged in the "
+                 "files that are checked", p.loc(n)) if blocked else ctx.ok(construct, p.loc(n), guards=sorted(gs)))
+
+
+def _anc(repo, n, stop):
+    q = repo.parent(n)
+    while q is not None and q is not stop:
+        yield q
+        q = repo.parent(q)
+
+
 def rules():
-    return [("R19.1", r19_1, 3), ("R19.2", r19_2, 7), ("R19.3", r19_3, 4), ("R19.4", r19_4, 3), ("R19.5", r19_5, 8)]
+    return [("R19.6", r19_6, 1), ("R19.1", r19_1, 3), ("R19.2", r19_2, 7), ("R19.3", r19_3, 4), ("R19.4", r19_4, 3), ("R19.5", r19_5, 8)]
